@@ -511,7 +511,16 @@ func (m *Machine) setupModels() {
 		m.poolGets++
 		if m.opt.PoolStale > 0 {
 			// C13: a recycled buffer with arbitrary stale content and some capacity
-			capv := []int{0, 5, 64}[m.choose(3)]
+			var capv int
+			if m.opt.PoolStale == 1 {
+				// one capacity per path, shared by every Get
+				if m.poolCap < 0 {
+					m.poolCap = []int{0, 5, 64}[m.choose(3)]
+				}
+				capv = m.poolCap
+			} else {
+				capv = []int{0, 5, 64}[m.choose(3)]
+			}
 			if capv > 0 {
 				back := make([]Val, capv)
 				for i := range back {
